@@ -20,9 +20,9 @@ from ._shared import use_shared
 OPTS3 = ['GreyWolfOptimization', 'BatOptimization', 'ParticleSwarmOptimization']
 
 
-def fresh_opt(optname, proto, mode, W):
+def fresh_opt(optname, proto, mode, W, task_seed=None):
     o = registry.make(optname)
-    o._task = tasks.make_task(proto)
+    o._task = tasks.make_task(proto, seed=task_seed)
     o._mode = ModeSolver(mode)
     o._workers = W
     return o
@@ -61,7 +61,8 @@ def judge(agents, n, task, calls_per_agent=None):
 
 # ---------------------------------------------------------------------------------------------------------------
 def atomic_family(args):
-    optname, proto, n, W, seed = args
+    optname, proto, n, W, seed = args[:5]
+    task_seed = args[5] if len(args) > 5 else None
     res = {}
     k, outcomes, sample = 0, set(), None
     seams.install()
@@ -75,8 +76,8 @@ def atomic_family(args):
                   for report in ((None, list(range(n))[::-1], list(range(1, n)) + [0]) if assign in (None, assigns[0]) else (None,)):
                     CTL.reset({}, seed)
                     tasks.reset_obj(keep_args=True)
-                    o = fresh_opt(optname, proto, mode, W)
-                    np.random.seed(None)
+                    o = fresh_opt(optname, proto, mode, W, task_seed)
+                    np.random.seed(task_seed)       # what optimize() does before the population is generated
                     pools.PLAN['order'] = list(order)
                     pools.PLAN['assign'] = list(assign) if assign is not None else None
                     pools.PLAN['report'] = report
@@ -92,7 +93,8 @@ def atomic_family(args):
                     for what, d in judge(got, n, o._task, 1):
                         res.setdefault(what, (d, {'opt': optname, 'proto': proto, 'n': n, 'W': W, 'mode': mode,
                                                   'order': list(order), 'assign': list(assign) if assign else None,
-                                                  'report': report, 'seed': seed, 'part': 'atomic'}))
+                                                  'report': report, 'seed': seed, 'task_seed': task_seed,
+                                                  'part': 'atomic'}))
                     if sample is None and mode == 'process' and assign and len(set(assign)) > 1 and order[0] != 0:
                         sample = {'optimizer': optname, 'n': n, 'workers': W, 'mode': mode, 'completion_order': list(order),
                                   'worker_assignment': list(assign), 'distinct_positions': len({tuple(a.position) for a in got})}
@@ -104,6 +106,8 @@ def atomic_family(args):
 
 def run_atomic(rep, ns, Ws, s0):
     work = [(o, p, n, W, s0) for o in OPTS3 for p in ('cont3z', 'mixed3') for n in ns for W in Ws]
+    # tasks that carry an integer seed (the library seeds the generator from it before the population is generated)
+    work += [(o, 'cont3z', n, W, s0, 5) for o in OPTS3 for n in ns for W in Ws]
     tot = dist = 0
     samples = []
     for k, d, res, sample in explore.pool().imap_unordered(atomic_family, work):
@@ -123,7 +127,8 @@ def run_atomic(rep, ns, Ws, s0):
 # ---------------------------------------------------------------------------------------------------------------
 def interleaved_family(args):
     optname, proto, n, W, bound, line, seed, cap = args[:8]
-    keep = len(args) > 8
+    keep = len(args) > 8 and args[8] == 'keep'
+    task_seed = args[9] if len(args) > 9 else None
     res = {}
     outcomes = set()
     sample = {}
@@ -133,9 +138,9 @@ def interleaved_family(args):
     def body():
         CTL.reset({}, seed)
         tasks.reset_obj(keep_args=True)
-        o = fresh_opt(optname, proto, 'thread', W)     # fresh task object: lazily built state is raced for
+        o = fresh_opt(optname, proto, 'thread', W, task_seed)   # fresh task object: lazily built state is raced for
         st['task'] = o._task
-        np.random.seed(None)
+        np.random.seed(task_seed)
         try:
             return o._generate_agents(n)
         except Exception as e:
@@ -172,6 +177,8 @@ def run_interleaved(rep, tier, s0):
         work.append((o, 'cont3z', 3, 3, 3 if tier != 'quick' else 2, False, s0, cap))
         work.append((o, 'mixed3', 2, 2, 1 if tier == 'quick' else 2, True, s0, cap))      # line granularity
         work.append((o, 'cont2s', 2, 2, 1 if tier == 'quick' else 2, True, s0, cap))
+        work.append((o, 'cont3z', 2, 2, None, False, s0, cap, None, 5))       # task with an integer seed
+        work.append((o, 'cont3z', 3, 3, 2, False, s0, cap, None, 5))
         if tier != 'quick':
             work.append((o, 'cont3z', 4, 3, 2, False, s0, cap))
             work.append((o, 'mixed3', 3, 2, 1, True, s0, cap))
@@ -349,7 +356,7 @@ def replay(case):
     rep = Reporter('C11', 'quick')
     part = case.get('part')
     if part == 'atomic':
-        k, d, res, s = atomic_family((case['opt'], case['proto'], case['n'], case['W'], case['seed']))
+        k, d, res, s = atomic_family((case['opt'], case['proto'], case['n'], case['W'], case['seed'], case.get('task_seed')))
         for what, (detail, c) in res.items():
             rep.finding(f"C11|_generate_agents|{what}|{c.get('mode')}", detail, {})
     elif part == 'interleaved':
